@@ -32,7 +32,11 @@ var ActorTypes = ActivityVocabularyTypes{
 // For example, a Profile object might be used as an actor, or a type from an ActivityStreams extension.
 // Actors are retrieved like any other Object in ActivityPub.
 // Like other ActivityStreams objects, actors have an id, which is a URI.
-type CanReceiveActivities Item
+// NOTE: this is an alias and not a type of its own: Activity.Actor (an Item) and IntransitiveActivity.Actor share
+// storage through the pointer casts of ToIntransitiveActivity/ToActivity, and an interface value stored through a
+// field of one named interface type and read through a field of another keeps the wrong method table
+// (type assertions and == on it fail).
+type CanReceiveActivities = Item
 
 type Actors interface {
 	Actor
